@@ -352,6 +352,7 @@ def unit_overlap_iter(sess, ctx):
             gh["yields_now"] = 0
             gh["phase"] = "main"
             gh["k"] = k
+            eng.loop_guard_holds(s, fr, props=P10)
             try:
                 eng.exec_block(s.body, fr)
             except _Continue:
